@@ -85,9 +85,14 @@ def _fixture_c():
         s2.metadata = other                            # a leaf source: nothing but the metadata link
         empty = blk.create_group("empty", "t")         # a group without members
         empty.metadata = sec
+        mt.metadata = sub
+        grp.metadata = other
         for k, v in (("blk", blk), ("a1", a1), ("a2", a2), ("tag", tag), ("mt", mt), ("grp", grp),
                      ("s", s), ("s1", s1), ("s2", s2), ("empty", empty)):
             E[bn + "." + k] = v
+    bare = f.create_block("bare", "t")                 # a block without any content, only a metadata link
+    bare.metadata = other
+    E["bare"] = bare
     return E
 
 
@@ -137,7 +142,8 @@ def _picture(f):
                 ext = None if m.extents is None else m.extents.id
             except Exception:  # noqa
                 ext = None
-            bd["mtags"].append({"id": m.id, "name": m.name, "pos": pos, "ext": ext, "refs": ids(m.references)})
+            bd["mtags"].append({"id": m.id, "name": m.name, "md": md(m), "pos": pos, "ext": ext,
+                                "refs": ids(m.references)})
         for g in b.groups:
             bd["groups"].append({"id": g.id, "name": g.name, "md": md(g), "das": ids(g.data_arrays), "tags": ids(g.tags),
                                  "mtags": ids(g.multi_tags), "sources": ids(g.sources)})
@@ -168,7 +174,8 @@ def _strip(pic, dead):
                            sources=lst(t["sources"]),
                            feats=["NODATA" if x in dead else x for x in t["feats"]])
                       for t in b["tags"] if t["id"] not in dead]
-        nb["mtags"] = [dict(m, pos=None if m["pos"] in dead else m["pos"], ext=None if m["ext"] in dead else m["ext"],
+        nb["mtags"] = [dict(m, md=None if m["md"] in dead else m["md"],
+                            pos=None if m["pos"] in dead else m["pos"], ext=None if m["ext"] in dead else m["ext"],
                             refs=lst(m["refs"])) for m in b["mtags"] if m["id"] not in dead]
         nb["groups"] = [dict(g, md=None if g["md"] in dead else g["md"], das=lst(g["das"]), tags=lst(g["tags"]), mtags=lst(g["mtags"]),
                              sources=lst(g["sources"])) for g in b["groups"] if g["id"] not in dead]
@@ -223,6 +230,7 @@ def _targets(E):
         ("b1.s1", lambda: E["b1.s"].sources), ("b1.s2", lambda: E["b1.s1"].sources),
         ("sec", lambda: f.sections), ("sub", lambda: E["sec"].sections), ("subsub", lambda: E["sub"].sections),
         ("b1.blk", lambda: f.blocks), ("b2.a1", lambda: E["b2.blk"].data_arrays),
+        ("bare", lambda: f.blocks), ("othersec", lambda: f.sections),
     ]
 
 
@@ -231,7 +239,7 @@ def _targets(E):
 # ---------------------------------------------------------------------------
 def _ob_delete(ti: int) -> bool:
     """
-    pre: 0 <= ti < 13
+    pre: 0 <= ti < 15
     post: __return__
     """
     how = PART
@@ -261,7 +269,7 @@ def _ob_delete(ti: int) -> bool:
 # ---------------------------------------------------------------------------
 def _ob_unlink(li: int, by: int) -> bool:
     """
-    pre: 0 <= li < 14 and 0 <= by < 3
+    pre: 0 <= li < 17 and 0 <= by < 3
     post: __return__
     """
     E = _fixture()
@@ -275,9 +283,11 @@ def _ob_unlink(li: int, by: int) -> bool:
         ("mt.refs", lambda: E["b1.mt"].references, E["b1.a2"]), ("a1.sources", lambda: E["b1.a1"].sources, E["b1.s1"]),
         ("md.blk", None, E["b1.blk"]), ("md.a1", None, E["b1.a1"]), ("md.s1", None, E["b1.s1"]),
         ("md.tag", None, E["b1.tag"]), ("md.s2", None, E["b1.s2"]), ("md.empty", None, E["b1.empty"]),
+        ("md.mt", None, E["b1.mt"]), ("md.grp", None, E["b1.grp"]), ("md.bare", None, E["bare"]),
     ]
     name, cont, item = _pick(links, li)
     if cont is None:
+        assume(by == 0)
         del item.metadata
         want = _clear_md(before, item.id)
     else:
@@ -304,7 +314,7 @@ def _clear_md(pic, owner):
     for b in p["blocks"]:
         if b["id"] == owner:
             b["md"] = None
-        for k in ("arrays", "tags", "groups"):
+        for k in ("arrays", "tags", "mtags", "groups"):
             for e in b[k]:
                 if e["id"] == owner:
                     e["md"] = None
